@@ -59,8 +59,12 @@ Kids(T, i) == SeqToSet(T.nodes[i].ch)
 Unplaced == [on |-> FALSE, start |-> 0, end |-> 0, alloc |-> {}]
 
 \* start times a WindowedChoose may pick: multiples of its granularity inside
-\* its [start, end] window (end = latest start), not in the past
-WStarts(T, n) == {s \in n.start..n.end : s % n.gran = 0 /\ s >= T.now}
+\* its [start, end] window (end = latest start).  The property statement does not
+\* say that nothing is placed before `now`; the pinned ChooseExpression refuses
+\* such options, the pinned WindowedChooseExpression offers them when its window
+\* opens before `now` -- both are taken as they are (the harness counts the latter
+\* as an observation, not as a C20 clause).
+WStarts(T, n) == {s \in n.start..n.end : s % n.gran = 0}
 \* slots of a MalleableChoose
 MSlots(n) == {s \in n.start..(n.end - 1) : (s - n.start) % n.gran = 0}
 
@@ -85,8 +89,7 @@ LeafBad(T, P, i) ==
                 \cup If(~AllocShapeOK(T, n, pl.alloc, {n.start}), "alloc")
                 \cup If(SumSet3(pl.alloc) # n.num, "amount")
            [] n.k = "WindowedChoose" ->
-                If(pl.start < T.now, "past")
-                \cup If(pl.start \notin WStarts(T, n) /\ pl.start >= T.now, "start")
+                If(pl.start \notin WStarts(T, n), "start")
                 \cup If(pl.end # pl.start + n.dur, "end")
                 \cup If(~AllocShapeOK(T, n, pl.alloc, {pl.start}), "alloc")
                 \cup If(SumSet3(pl.alloc) # n.num, "amount")
